@@ -286,12 +286,15 @@ P('C12', claimed=True, level='proof',
   technique='contract-based deductive verification: class invariants + two-call lemma functions over the real method bodies, z3')
 
 P('C13', claimed=True, level='other',
-  contracts=['seq_valuepatterns', 'seq_listpatterns', 'seq_filterpatterns', 'seq_oppatterns', 'seq_eventpatterns'], drivers=['vf.drivers.C13'],
+  contracts=['seq_valuepatterns', 'seq_listpatterns', 'seq_filterpatterns', 'seq_oppatterns', 'seq_eventpatterns', 'seq_morepatterns'], drivers=['vf.drivers.C13'],
   level_text=('Generator bodies under contract with `yield` / `yield from` as ghost trace events and per-pass '
               'obligations (the inductive step of the denotation): Pseries/Pgeom (first value = start, each '
               'pass draws the step once, yields the current value, next = current (+|*) step, quiet end on '
               'exhaustion); Pseq (one repetition = items from offset to the end, then the items before it, each '
               'embedded once with the threaded input value) and Pser (pass i embeds lst[(i + offset) mod size]); '
+              'Pdrop (exactly n values drawn and not yielded, then one draw = one yield), Pswitch / Pswitch1 (one index per pass, '
+              'the item - or the once-made stream of the item - at index mod size), Pslide (segment length and step drawn once per '
+              'segment, indices pos + j wrapped or confined to the list) and Place (sub-lists interlaced by repetition number); '
               'the event patterns: Pbind (every pass a COPY of the input event is updated with ONE value per key stream, drawn in '
               'dictionary order with the event built so far as input, and yielded; streams made once; None input and an '
               'ended key stream end it quietly), Pchain (a copy of the input through the streams from last pattern to first), '
